@@ -14,10 +14,14 @@ package main
 
 import (
 	"bytes"
+	"context"
 	"crypto/sha256"
+	"encoding/hex"
 	"fmt"
 	"os"
+	"os/exec"
 	"sort"
+	"strings"
 	"time"
 
 	"github.com/boltdb/bolt"
@@ -125,6 +129,27 @@ func deliver(n *nk.Node, steps []step) {
 
 func run(args []string) error {
 	f := ParseFlags("c08", args)
+	if strings.HasPrefix(f.Extra, "check:") {
+		// child mode: forced verification of one database file
+		parts := strings.SplitN(f.Extra, ":", 3)
+		var pk cipher.PubKey
+		if b, err := hex.DecodeString(parts[2]); err == nil {
+			copy(pk[:], b)
+		}
+		bdb, err := bolt.Open(parts[1], 0600, &bolt.Options{Timeout: 2 * time.Second})
+		if err != nil {
+			fmt.Println("CHECK-ERR open: " + err.Error())
+			return nil
+		}
+		err = visor.CheckDatabase(dbutil.WrapDB(bdb), pk, nil)
+		bdb.Close()
+		if err != nil {
+			fmt.Println("CHECK-ERR " + err.Error())
+		} else {
+			fmt.Println("CHECK-OK")
+		}
+		return nil
+	}
 	r := NewRng(f.Seed)
 	nBlocks := f.Budget(4, 14)
 	o := NewOut()
@@ -306,6 +331,7 @@ func run(args []string) error {
 	type obs struct {
 		c                     crashCase
 		opened, checkOK, hung bool
+		crashed               bool
 		checkMs               int64
 		recovered             string
 		abs                   absState
@@ -328,35 +354,34 @@ func run(args []string) error {
 			} else {
 				ob.errS = "abstract: " + err.Error()
 			}
-			// forced verification under a watchdog
-			done := make(chan error, 1)
+			// forced verification in a CHILD process under a watchdog: a panic in one of
+			// WalkChain's goroutines cannot be recovered in-process, and a hang must be killable
 			t0 := time.Now()
-			go func() {
-				bdb, err := bolt.Open(path, 0600, &bolt.Options{Timeout: 2 * time.Second})
-				if err != nil {
-					done <- err
-					return
-				}
-				db := dbutil.WrapDB(bdb)
-				err = visor.CheckDatabase(db, w.Pub, nil)
-				bdb.Close()
-				done <- err
-			}()
-			select {
-			case err := <-done:
-				ob.checkOK = err == nil
-				if err != nil {
-					ob.errS = "check: " + err.Error()
-				}
-			case <-time.After(20 * time.Second):
+			cctx, cancel := context.WithTimeout(context.Background(), 20*time.Second)
+			cmd := exec.CommandContext(cctx, os.Args[0], "-extra", "check:"+path+":"+hex.EncodeToString(w.Pub[:]))
+			outb, cerr := cmd.CombinedOutput()
+			cancel()
+			outS := strings.TrimSpace(string(outb))
+			switch {
+			case cctx.Err() == context.DeadlineExceeded:
 				ob.hung = true
 				ob.errS = "CheckDatabase did not return within 20s"
+			case cerr == nil && strings.HasSuffix(outS, "CHECK-OK"):
+				ob.checkOK = true
+			case strings.Contains(outS, "CHECK-ERR"):
+				ob.errS = "check: " + outS[strings.Index(outS, "CHECK-ERR")+10:]
+			default:
+				ob.crashed = true
+				if len(outS) > 600 {
+					outS = outS[:600]
+				}
+				ob.errS = "CheckDatabase crashed the process: " + outS
 			}
 			ob.checkMs = time.Since(t0).Milliseconds()
 		} else {
 			ob.checkOK = true
 		}
-		if !ob.hung {
+		if !ob.hung && !ob.crashed {
 			var n *nk.Node
 			var nerr error
 			if Guard(func() { n, nerr = w.NewNode(name, false, gs) }) {
@@ -434,9 +459,9 @@ func run(args []string) error {
 			rec = idxOf(ob.recovered, c.commit)
 		}
 		crashItems = append(crashItems, Tuple(fmt.Sprint(commit), fmt.Sprint(np), fmt.Sprint(j), mwc,
-			fmt.Sprint(rec), B(ob.opened), B(ob.checkOK), B(ob.hung), B(ob.finalEq), fmt.Sprint(ob.abs.Chain)))
+			fmt.Sprint(rec), B(ob.opened), B(ob.checkOK), B(ob.hung || ob.crashed), B(ob.finalEq), fmt.Sprint(ob.abs.Chain)))
 		crashJSON = append(crashJSON, map[string]interface{}{"commit": c.commit, "dirty_pages": c.npages, "pages_written": c.j, "meta": c.mw,
-			"recovered_boundary": rec, "opened": ob.opened, "check_ok": ob.checkOK, "hung": ob.hung, "final_equal": ob.finalEq,
+			"recovered_boundary": rec, "opened": ob.opened, "check_ok": ob.checkOK, "hung": ob.hung, "crashed": ob.crashed, "final_equal": ob.finalEq,
 			"check_ms": ob.checkMs, "chain_len": ob.abs.Chain, "err": ob.errS})
 		hist.Add("crash:" + c.mw)
 		o.Count(fmt.Sprint("crash", c.commit, c.npages, c.j, c.mw), c.data != nil)
